@@ -175,6 +175,11 @@ impl Story {
         // so they're the right way round again.
         arguments.reverse();
 
+        #[cfg(feature = "verif")]
+        {
+            self.verif.counters.ext_calls += 1;
+        }
+
         // Run the function!
         let func_def = self.externals.get(func_name);
         let func_result = func_def
